@@ -161,7 +161,11 @@ def per_item(item):
         market = sl.make_market(MARKET_DAYS, MARKET_SPEC)
         sl.write_market(d, market)
         handler, _ = sl.load_handler(d, market)
-        for cfg in session_cfgs(item):
+        cfgs = list(session_cfgs(item))
+        # ... and, after all of them, the sessions without burn-in once more: a session must not depend on the
+        # sessions (with other burn-ins, same dates and schedule) that ran before it in the process
+        cfgs += [c for c in cfgs if c['burn_in'] is None]
+        for cfg in cfgs:
             fails, nreb = check(cfg, market, handler)
             n += 1
             if nreb:
